@@ -114,12 +114,24 @@ impl CacheStorage for SimStore {
 }
 
 fn doc_text(k: usize) -> String {
-    // distinct texts; some differ only in white space or an alias
-    match k % 4 {
+    // distinct texts; some differ only in white space, letter case of an alias or an operation name
+    match k % 6 {
         0 => format!("{{ echo(n: {k}) }}"),
         1 => format!("query Q{k} {{ echo(n: {k}) }}"),
-        2 => format!("{{  echo( n: {k} )  }}"),
-        _ => format!("{{ echo(n: {k}) second: echo(n: {k}) }}"),
+        2 => format!("  {{  echo( n: {k} )  }}\n"),
+        3 => format!("{{ echo(n: {k}) second: echo(n: {k}) }}"),
+        4 => format!("{{ echo(n: {k}) X: echo(n: 7) }}"),
+        _ => format!("{{ echo(n: {}) x: echo(n: 7) }}", k - 1),
+    }
+}
+
+/// the data a document must produce
+fn doc_data(k: usize) -> J {
+    match k % 6 {
+        3 => json!({"echo": k, "second": k}),
+        4 => json!({"echo": k, "X": 7}),
+        5 => json!({"echo": k - 1, "x": 7}),
+        _ => json!({"echo": k}),
     }
 }
 
@@ -206,7 +218,7 @@ fn run(variant: usize) -> CaseOut {
     sim::begin_exec("persisted-queries");
     let params = sim::draw_params();
     set_latency(draw(1 << 16) as u64, [1u32, 0, 2][draw(3) as usize]);
-    let n_docs = 1 + draw(4) as usize;
+    let n_docs = 1 + draw(6) as usize;
     let n_clients = 1 + draw(4) as usize;
     let mut scripts: Vec<Vec<Kind>> = vec![];
     for _ in 0..n_clients {
@@ -267,7 +279,7 @@ fn run(variant: usize) -> CaseOut {
         out.viol("C31/stall", format!("a client did not finish ({:?}); {desc}", end));
         return out;
     }
-    let echo_of = |v: &J| -> Option<i64> { v["data"]["echo"].as_i64() };
+    let ran = |v: &J, k: usize| -> bool { v["data"] == doc_data(k) };
     let is_err = |v: &J| v.get("errors").is_some();
     let not_found = |v: &J| v["errors"].as_array().map(|a| a.iter().any(|e| e["message"] == "PersistedQueryNotFound")).unwrap_or(false);
     let valid_keys: Vec<String> = hist.iter().filter_map(|h| if let Kind::Register(k) = h.kind { Some(sha(&doc_text(k))) } else { None }).collect();
@@ -282,8 +294,8 @@ fn run(variant: usize) -> CaseOut {
         let (ret_seq, v) = h.ret.clone().unwrap();
         match &h.kind {
             Kind::Register(k) | Kind::Ordinary(k) => {
-                if is_err(&v) || echo_of(&v) != Some(*k as i64) {
-                    out.viol("C31/wrong-document-executed", format!("{:?} returned {v}, expected its own document (echo {k}); {desc}", h.kind));
+                if is_err(&v) || !ran(&v, *k) {
+                    out.viol("C31/wrong-document-executed", format!("{:?} returned {v}, expected its own document's data {}; {desc}", h.kind, doc_data(*k)));
                     return out;
                 }
             }
@@ -306,7 +318,7 @@ fn run(variant: usize) -> CaseOut {
                     sim::count("probe:hash-only-miss");
                 } else {
                     sim::count("probe:hash-only-hit");
-                    if echo_of(&v) != Some(*k as i64) {
+                    if !ran(&v, *k) {
                         out.viol("C31/wrong-document-executed", format!("hash-only request for document {k} executed another document: {v}; {desc}"));
                         return out;
                     }
